@@ -264,6 +264,8 @@ func Concretize(e *Edge, n int) Concrete {
 					plan.Err = fmt.Errorf("verdict-%d", n)
 				case "panic":
 					plan.Panic = true
+				case "eacc":
+					plan.ReadMode = rec.ReadNone // returns nil at once
 				case "mid1", "mid4":
 					plan.ReadMode = rec.ReadK
 					plan.K = map[string]int{"mid1": 1, "mid4": 4}[c.P]
@@ -279,6 +281,9 @@ func Concretize(e *Edge, n int) Concrete {
 			line("VRFY someone")
 		} else {
 			line(c.C)
+		}
+		if c.C == "RSET" && c.A == "panic" {
+			k.Setup = func(be *rec.Backend) { be.PanicIn = "Reset" }
 		}
 	case "BAD":
 		switch c.A {
@@ -549,7 +554,19 @@ func (cv *Conv) Exec(e *Edge) (divs []evid.Div, fatal error) {
 				d := evid.Div{Prop: hp, Key: "hang:" + e.Lbl.Cmd.String() + ":" + stuck.Where,
 					Msg: fmt.Sprintf("%s in state %s: no reply - %v\n%s", e.Lbl.Cmd, stShort(e.Src), stuck, stuck.Dump), Replay: replayOf(cv, e)}
 				cv.Labels = append(cv.Labels, e.Lbl)
-				return []evid.Div{d}, nil
+				out := []evid.Div{d}
+				if hp != "C08" {
+					// does the wedged connection at least end when its peer goes away?
+					cv.C.Abort()
+					for dl := time.Now().Add(700 * time.Millisecond); time.Now().Before(dl) && !cv.C.Ended(); {
+						time.Sleep(time.Millisecond)
+					}
+					if !cv.C.Ended() {
+						out = append(out, evid.Div{Prop: "C08", Key: "hang-outlives-peer:" + e.Lbl.Cmd.String() + ":" + stuck.Where,
+							Msg: fmt.Sprintf("%s in state %s: the server is stuck (%v) and the goroutine serving the connection does not end when the peer disconnects: no Logout, goroutine left behind", e.Lbl.Cmd, stShort(e.Src), stuck), Replay: replayOf(cv, e)})
+					}
+				}
+				return out, nil
 			}
 			return nil, err
 		}
@@ -672,6 +689,8 @@ func (cv *Conv) Exec(e *Edge) (divs []evid.Div, fatal error) {
 			prop = "C08" // the server says it gives up the connection, and goes on serving it
 		} else if closing && len(rs) > len(exp) && prefixOK(rs, exp) {
 			prop = "C08" // something ran after the connection was given up
+		} else if e.Lbl.Cmd.C == "STARTTLS" {
+			prop = "C10" // offered and accepted only when TLS is configured and not yet active
 		} else if e.Lbl.Cmd.C == "LONG" || e.Lbl.Cmd.C == "BAD" {
 			prop = "C19"
 		} else if e.Cfg.Lmtp && len(rs) != len(exp) && (e.Lbl.Cmd.C == "DATA" || e.Lbl.Cmd.C == "BDAT" && e.Lbl.Cmd.L) && len(rs) <= len(exp) {
@@ -916,6 +935,25 @@ func (cv *Conv) Exec(e *Edge) (divs []evid.Div, fatal error) {
 	if e.Lbl.Cmd.C == "DATACUT" || e.Lbl.Cmd.C == "BDATCUT" {
 		for i := range divs {
 			divs[i].Prop = "C07"
+		}
+	}
+	if cc := e.Lbl.Cmd.C; cc == "DATASTALL" || cc == "BDATSTALL" {
+		// a positive reply, or end-of-file at the backend, for a message that stopped arriving
+		pos := false
+		for _, r := range rs {
+			if r.Code == 250 {
+				pos = true
+			}
+		}
+		eof := false
+		for _, c := range calls {
+			if c.Phase == "end" && c.ReadErr == "EOF" {
+				eof = true
+			}
+		}
+		if pos || eof {
+			divs = append(divs, evid.Div{Prop: "C07", Key: fmt.Sprintf("stalled-complete:%s:%s", e.Lbl.Cmd.String(), srcClass(e)),
+				Msg: fmt.Sprintf("%s: the message stopped arriving, yet the backend saw end-of-file (%v) / the reply was positive (%v): replies %v", ctx, eof, pos, st.Replies), Replay: rp()})
 		}
 	}
 	if closing || len(divs) > 0 {
